@@ -86,7 +86,32 @@ CHECKS["C16"] = dict(
     technique="deterministic simulation: seeded operation histories over a derivation graph against an executable graph model and fresh-build oracle",
 )
 
-PENDING = {p: "check under construction in this session; will be claimed (see DESIGN.md section 0)" for p in ("C04","C20")}
+CHECKS["C04"] = dict(
+    category="exploration",
+    text="Seeded call histories (1-40 operations, shapes: random, failing-calls-first, a-b-a pairs, forward-reverse-forward) "
+         "over worlds with static, union, intersection, dependent, Literal, type[...], keyword and hook annotations and bodies "
+         "that delegate through recurse / call_next / f.next. Every operation must equal the same call made first on a fresh "
+         "function. A separate fault-injecting batch interrupts (or fails a hook in) one call of the history at a seeded step; "
+         "only that call is exempt.",
+    design_ref="DESIGN.md 4/C04",
+    note="Differential against the library's own first call on a fresh function; canonical set order. Sampling; cache-state "
+         "abstraction counts reported as reach measure.",
+    technique="deterministic simulation: seeded call histories with mid-call fault injection against a fresh-function oracle",
+)
+CHECKS["C20"] = dict(
+    category="exploration",
+    text="Seeded histories: warm-up of every successful corpus call, then 5-40 operations mixing monitored repeats with "
+         "disturbances (failing calls of other combinations, calls interrupted at a seeded step or hit by a hook failure, resolve, "
+         "display_resolution, register/unregister followed by one allowed re-warm). During each repeat no user hook counter may "
+         "move and the tracer must see no call of typeorder / subclasscheck / sort_types / MultiTypeMap.mro / resolve / "
+         "TypeMap.__missing__.",
+    design_ref="DESIGN.md 4/C20",
+    note="Hook types kept out of value-dependent combinators; dict misses that compute nothing are allowed; monitor points "
+         "identified by code object at start-up (reported if a refactor removes one). Sampling.",
+    technique="deterministic simulation: seeded call/fault histories with a trace-function resolution-activity monitor and hook invocation counters",
+)
+
+PENDING = {p: "check under construction in this session; will be claimed (see DESIGN.md section 0)" for p in ()}
 
 
 def main():
